@@ -229,10 +229,17 @@ func run[N constraint.Numbers](c Case, w *vkit.W, isNew bool) {
 	}
 }
 
+type (
+	namedS string
+	namedB []byte
+)
+
 func typedParse(err error) bool {
 	var a *size.ParseError[string]
 	var b *size.ParseError[[]byte]
-	return errors.As(err, &a) || errors.As(err, &b)
+	var c *size.ParseError[namedS]
+	var d *size.ParseError[namedB]
+	return errors.As(err, &a) || errors.As(err, &b) || errors.As(err, &c) || errors.As(err, &d)
 }
 
 func judgeText(c Case, w *vkit.W) {
@@ -270,11 +277,17 @@ func judgeText(c Case, w *vkit.W) {
 	}
 	got, err := size.DefaultParser(text, size.Rule(c.Rule))
 	check("DefaultParser[string]", got, err)
-	got, err = size.DefaultParser([]byte(text), size.Rule(c.Rule))
+	got, err = size.DefaultParser(w.Scratch(text), size.Rule(c.Rule)) // a reused caller buffer
 	check("DefaultParser[[]byte]", got, err)
+	if v.Shape {
+		got, err = size.DefaultParser(namedS(text), size.Rule(c.Rule))
+		check("DefaultParser[named string]", got, err)
+		got, err = size.DefaultParser(namedB(w.Scratch(text)), size.Rule(c.Rule))
+		check("DefaultParser[named []byte]", got, err)
+	}
 	if c.Rule == 0 {
 		s := size.Size(4242)
-		err := s.UnmarshalText([]byte(text))
+		err := s.UnmarshalText(w.Scratch(text))
 		if err != nil {
 			if s != 4242 {
 				w.Fail(c, "receiver-changed-on-error", fmt.Sprintf("UnmarshalText(%q): error %v, receiver %d", text, err, uint64(s)))
@@ -455,6 +468,35 @@ func TestCheck(t *testing.T) {
 			chk("Max[MyF32]", constraint.Max[MyF32]() == math.MaxFloat32 && constraint.Min[MyF32]() == -math.MaxFloat32 && constraint.IsFloat[MyF32]() && constraint.IsSigned[MyF32]() && constraint.SizeBits[MyF32]() == 32 && constraint.SmallestNonzero[MyF32]() == math.SmallestNonzeroFloat32)
 			chk("Max[MyF64]", constraint.Max[MyF64]() == math.MaxFloat64 && constraint.Min[MyF64]() == -math.MaxFloat64 && constraint.IsFloat[MyF64]() && constraint.SizeBytes[MyF64]() == 8 && constraint.SmallestNonzero[MyF64]() == math.SmallestNonzeroFloat64)
 			chk("Max[uint32]", constraint.Max[uint32]() == math.MaxUint32 && constraint.Max[int16]() == math.MaxInt16 && constraint.Min[int32]() == math.MinInt32 && constraint.SmallestNonzero[MyU8]() == 1)
+		})
+	})
+
+	// Phase D2: Size.UnmarshalText honours RuleDisableUnit of DefaultRule (a package setting): boundary numbers without unit.
+	r.Phase("D2: UnmarshalText under DefaultRule with RuleDisableUnit: numbers around 2^64 and texts with units", func() {
+		old := size.DefaultRule
+		defer func() { size.DefaultRule = old }()
+		size.DefaultRule = old | size.RuleDisableUnit
+		r.Serial(func(w *vkit.W) {
+			top := new(big.Int).SetUint64(math.MaxUint64)
+			for d := int64(-40); d <= 40; d++ {
+				v := new(big.Int).Add(top, big.NewInt(d))
+				for _, text := range []string{v.String(), " " + v.String(), ref.Group(v.String(), "_"), v.String() + "0", "0" + v.String(), v.String() + " B", v.String() + "kB"} {
+					tv := ref.ParseSizeText(text)
+					s := size.Size(4242)
+					err := s.UnmarshalText(w.Scratch(text))
+					c := Case{Kind: "text", Text: vkit.B(text), Rule: int(size.RuleDisableUnit)}
+					want := tv.OK() && tv.Unit == ""
+					switch {
+					case want && (err != nil || uint64(s) != tv.Value):
+						w.Fail(c, "unmarshaltext-under-default-rule", fmt.Sprintf("UnmarshalText(%q) with DefaultRule|RuleDisableUnit -> %d, %v; want %d", text, uint64(s), err, tv.Value))
+					case !want && err == nil:
+						w.Fail(c, "unmarshaltext-under-default-rule", fmt.Sprintf("UnmarshalText(%q) with DefaultRule|RuleDisableUnit -> %d without error", text, uint64(s)))
+					case !want && s != 4242:
+						w.Fail(c, "receiver-changed-on-error", fmt.Sprintf("UnmarshalText(%q): error %v, receiver %d", text, err, uint64(s)))
+					}
+					w.Eval(true)
+				}
+			}
 		})
 	})
 
